@@ -676,6 +676,13 @@ class TorchBackendProvider(BackendProvider):
 
     def power(self, a, b):
         """Compute a^b, handling gradient tracking for torch tensors."""
+        if isinstance(b, torch.Tensor) and b.requires_grad and not isinstance(a, torch.Tensor):
+            # a plain base with a tracked exponent (2^x): keep the exponent in the graph,
+            # d/db a^b = a^b * ln(a) would otherwise be lost (0-d) or numpy() would raise
+            a = torch.as_tensor(a, dtype=b.dtype, device=b.device)
+        elif isinstance(a, torch.Tensor) and isinstance(b, numpy.ndarray):
+            # numeric differentiation hands the function numpy probes
+            b = torch.from_numpy(numpy.ascontiguousarray(b)).to(a.device)
         if isinstance(a, torch.Tensor):
             # Handle negative exponents - torch doesn't support int^negative
             if isinstance(b, torch.Tensor) and b.dtype in (torch.int8, torch.int16, torch.int32, torch.int64) and (b < 0).any():
